@@ -193,3 +193,8 @@ Definition tournament_game (n k : nat) (rs : list Q) : list (list Q) * list (lis
 (* unit_vector_game (avoid_pure_nash = False): payoff_arrays[0][ones_ind, arange(n)] = 1 *)
 Definition unit_vector_payoff0 (n : nat) (ones_ind : list Z) : list (list Q) :=
   tab2 n n (fun i j => if (Z.of_nat i =? nth j ones_ind (-1)%Z)%Z then 1 else 0).
+
+Definition qsum (l : list Q) : Q := fold_right Qplus 0 l.
+
+(* the largest value numpy's random() can return: 1 - 2^-53 *)
+Definition max_uniform : float := 0x1.fffffffffffffp-1%float.
